@@ -243,6 +243,9 @@ def _ft_ops(ctx):
     for y, th in big:
         hashes.append("fthash %d %d 32" % (y, th))
         hashes.append("ftdhash %d %d %d 32" % (rng.randint(1000, 100000), y, th))
+        # y of the order of z as well: with a small y every number with a prime factor > y is zeroed by the second pass, which
+        # hides what the first pass (mu / lpf marking by the primes up to z / 13) did to it (seeded change C02-b)
+        hashes.append("ftdhash %d %d %d 32" % (rng.choice((y // 2, y // 13 + rng.randint(0, 1000), y - rng.randint(0, 1000))), y, th))
         t = ideal_threads(y, th)
         td = -(-y // t)
         td += 2310 - td % 2310
